@@ -82,7 +82,19 @@ impl Scenario for C16 {
         let gas = env.register(axelar_gas_service::AxelarGasService, (owner.clone(), operator.clone()));
         let example = env.register(example::Example, (gw.clone(), gas.clone()));
         let mini = env.register(MiniApp, (gw.clone(),));
-        (Ctx { w, gw, keys, set, apps: vec![example, mini], third: operator.clone() }, Model { advances: 0, status: vec![Status::NotApproved; 3], mini_count: 0 })
+        // an account-type address made of the same 32 bytes as the example app's contract id: an
+        // approval naming it is not an approval for the app
+        let twin = {
+            let raw = match w.sc_addr(&example) {
+                soroban_sdk::xdr::ScAddress::Contract(h) => h.0,
+                _ => unreachable!(),
+            };
+            axmc::its::addr_from_sc(
+                &w,
+                &soroban_sdk::xdr::ScAddress::Account(soroban_sdk::xdr::AccountId(soroban_sdk::xdr::PublicKey::PublicKeyTypeEd25519(soroban_sdk::xdr::Uint256(raw)))),
+            )
+        };
+        (Ctx { w, gw, keys, set, apps: vec![example, mini, twin], third: operator.clone() }, Model { advances: 0, status: vec![Status::NotApproved; 3], mini_count: 0 })
     }
 
     fn actions(&self, _ctx: &Ctx, m: &Model) -> Vec<Act> {
@@ -101,10 +113,13 @@ impl Scenario for C16 {
                     }
                 }
             }
+            // approved for the account-type twin of the example app's address
+            v.push(Act::Approve { key, c: Content { app: 2, src: 0, payload: 0 } });
         }
         let c0 = Content { app: 0, src: 0, payload: 0 };
         let c1 = Content { app: 1, src: 0, payload: 0 };
-        for (a, b) in [((0usize, c0), (1usize, c0)), ((1, c0), (0, c0)), ((1, c1), (0, c1)), ((0, c1), (0, c0))] {
+        // the last batch leads with a message from another source chain (its key is approved nowhere else)
+        for (a, b) in [((0usize, c0), (1usize, c0)), ((1, c0), (0, c0)), ((1, c1), (0, c1)), ((0, c1), (0, c0)), ((2, c0), (0, c0))] {
             v.push(Act::ApproveBatch { first: a, second: b });
         }
         for key in 0..2usize {
@@ -243,7 +258,7 @@ fn main() {
         let mut o = Opts::new(tier, if tier == "thorough" { 12 } else { 8 });
         o.min_depth = 3;
         o.xcheck = tier == "thorough";
-        o.rule = "all sequences over gateway approvals (2 message ids x destination app {example, miniapp} x 2 source addresses x 2 payloads) and deliveries app.execute(chain, id, source address, payload) for both apps x 3 ids (one never approved, on another chain) x 2 source addresses x 2 payloads; so never-approved, approved-for-the-other-app, other payload / source address / id / chain, delivered twice and conforming deliveries all occur; a third party asking the gateway directly (refused, must change nothing); explored to fixpoint of the finite status graph".into();
+        o.rule = "all sequences over gateway approvals (2 message ids x destination {example app, minimal app} x 2 source addresses x 2 payloads, plus the account-type address made of the example app's 32 bytes; two-message batches incl. one led by a message from another source chain) and deliveries app.execute(chain, id, source address, payload) for both apps x 3 ids (one never approved, on another chain) x 2 source addresses x 2 payloads; so never-approved, approved-for-the-other-app, other payload / source address / id / chain, delivered twice and conforming deliveries all occur; a third party asking the gateway directly (refused, must change nothing); explored to fixpoint of the finite status graph".into();
         (C16, o)
     });
 }
